@@ -22,6 +22,8 @@ class AllometryInterpreter(Interpreter):
     def interpret(self, tree):
         children = self.visit_children(tree)
         assert 1 <= len(children) <= 2
+        if len(children) == 1:
+            return Allometry(covariate=children[0])
         return Allometry(covariate=children[0], reference=children[1])
 
     def value(self, tree):
